@@ -89,7 +89,7 @@ Theorem C16_facts : (c_NFSERR_JUKEBOX =? 10008)%Z = true.
 Proof. vm_compute. reflexivity. Qed.
 
 (* ---------- non-vacuity ---------- *)
-Definition pol (ro en : bool) (cfg : option N) : policy := {| p_ro := ro; p_enable := en; p_cfg := cfg; p_squash := 0 |}.
+Definition pol (ro en : bool) (cfg : option N) : policy := {| p_ro := ro; p_enable := en; p_cfg := cfg; p_squash := 0; p_maxsize := 0; p_secure := false |}.
 (* r1 is admitted and blocks in the backend; update 7 (read-only, limiter burst 2) is called and drains;
    r2 arrives mid-drain; HandleCall of r1 times out while its worker keeps the lock and runs another backend
    operation; r1 finishes; the update completes; r3 arrives on connection 5, opened before the update. *)
